@@ -15,12 +15,15 @@ package storage_test
 
 import (
 	"context"
+	"database/sql"
 	"errors"
 	"fmt"
 	"math/rand"
 	"os"
 	"path/filepath"
+	"runtime"
 	"sort"
+	"strconv"
 	"strings"
 	"sync"
 	"testing"
@@ -118,7 +121,21 @@ func (f *c02File) WriteAt(p []byte, off int64) (int, error) {
 	return len(p), nil
 }
 
+// Sync makes the written data durable.  When it is called by VolumeManager.Sync (as opposed to
+// migrateSector / RemoveSector / Close) it is a step of the model, can be made to fail (the
+// pages stay dirty, a later fsync can succeed) and can be stalled.
 func (f *c02File) Sync() error {
+	t, isSync := f.w.syncThreadOf(c02Goid())
+	if isSync {
+		if f.w.takeFault(&f.w.failSync) {
+			f.w.emitFsync(t, f.id, false)
+			return errors.New("verif: injected fsync error")
+		}
+		if st := f.w.takeStall(); st != nil {
+			close(st.entered)
+			<-st.release
+		}
+	}
 	f.mu.Lock()
 	defer f.mu.Unlock()
 	if f.crashed {
@@ -130,7 +147,23 @@ func (f *c02File) Sync() error {
 		}
 	}
 	f.overlay = map[int64][]byte{}
+	if isSync {
+		f.w.emitFsync(t, f.id, true)
+	}
 	return nil // durability of the underlying file system is assumed, not exercised
+}
+
+func c02Goid() int64 {
+	var buf [64]byte
+	n := runtime.Stack(buf[:], false)
+	fields := strings.Fields(string(buf[:n])) // "goroutine 123 [running]: ..."
+	id, _ := strconv.ParseInt(fields[1], 10, 64)
+	return id
+}
+
+type c02Stall struct {
+	entered chan struct{}
+	release chan struct{}
 }
 
 func (f *c02File) Truncate(n int64) error {
@@ -194,6 +227,13 @@ type c02World struct {
 	files map[int64]*c02File
 
 	failRead, failWrite int // fail the next read / write of any volume file when 1
+	failSync            int // fail the next fsync issued by VolumeManager.Sync when 1
+	stall               *c02Stall       // stall the next fsync issued by VolumeManager.Sync
+	syncThreads         map[int64]int   // goroutine id -> model thread of the VolumeManager.Sync it runs
+	nsync               int
+	stalledRelease      chan struct{} // a stalled Sync that is still in flight
+	stalledDone         chan error
+	raw                 *sql.DB // second connection: read-only snapshots that do not touch last-access times, and ageing
 	nthr                int
 	hold                *c02Writer // the next StoreSector call is held at the hook
 	cons                []*c02Con
@@ -250,6 +290,37 @@ func (w *c02World) takeFault(p *int) bool {
 		return *p == 0
 	}
 	return false
+}
+
+func (w *c02World) syncThreadOf(g int64) (int, bool) {
+	w.mu.Lock()
+	defer w.mu.Unlock()
+	t, ok := w.syncThreads[g]
+	return t, ok
+}
+
+func (w *c02World) takeStall() *c02Stall {
+	w.mu.Lock()
+	defer w.mu.Unlock()
+	st := w.stall
+	w.stall = nil
+	return st
+}
+
+// emitFsync records the fsync of one volume by Sync thread t and, when it succeeded, the
+// deletion of the volume's changed flag that follows it.
+func (w *c02World) emitFsync(t int, vol int64, ok bool) {
+	if w.st.dead {
+		return
+	}
+	w.mu.Lock()
+	defer w.mu.Unlock()
+	if ok {
+		w.res.steps = append(w.res.steps, fmt.Sprintf("(DFsync %d %d true, %s)", t, vol, c02Res(nil)),
+			fmt.Sprintf("(DClear %d, %s)", t, c02Res(nil)))
+	} else {
+		w.res.steps = append(w.res.steps, fmt.Sprintf("(DFsync %d %d false, OM (ORes (Err EOther)))", t, vol))
+	}
 }
 
 func c02Err(err error) string {
@@ -439,6 +510,13 @@ func (w *c02World) open() {
 	}
 	w.db = db
 	w.st = &c02Store{Store: db, w: w}
+	raw, err := sql.Open("sqlite3", "file:"+filepath.Join(w.dir, "hostd.db")+"?_busy_timeout=10000")
+	if err != nil {
+		w.fatalf("open raw db: %v", err)
+	}
+	raw.SetMaxOpenConns(1)
+	w.raw = raw
+	w.syncThreads = map[int64]int{}
 	vm, err := storage.NewVolumeManager(w.st, storage.WithCacheSize(w.res.cacheSize), storage.WithPruneInterval(24*time.Hour))
 	if err != nil {
 		w.fatalf("new volume manager: %v", err)
@@ -478,10 +556,16 @@ func (w *c02World) crash(held []*c02Writer) {
 	for _, f := range w.files {
 		f.crash()
 	}
+	w.raw.Close()
 	w.db.Close()
 	for _, h := range held { // their data write and rollback fail: the process is gone
 		h.release <- false
 		<-h.done
+	}
+	if w.stalledRelease != nil { // an fsync was in flight: it never completes
+		close(w.stalledRelease)
+		<-w.stalledDone
+		w.stalledRelease, w.stalledDone = nil, nil
 	}
 	w.vm.Close()
 	w.step("DCrash", c02Res(nil))
@@ -496,12 +580,26 @@ func (w *c02World) restart() {
 		w.fatalf("close: %v", err)
 	}
 	w.st.dead = true
+	w.raw.Close()
 	w.db.Close()
 	w.step("DRestart", c02Res(nil))
 	w.count("op:Restart")
 	w.clearSession()
 	w.open()
 	w.snapshot()
+}
+
+// locate reads a sector's slot over the second connection (Store.SectorLocation would refresh
+// the sector's last-access time).
+func (w *c02World) locate(r int) (vol int64, idx uint64, ok bool) {
+	root := c02RootsOf[r]
+	err := w.raw.QueryRow(`SELECT vs.volume_id, vs.volume_index FROM volume_sectors vs INNER JOIN stored_sectors ss ON vs.sector_id=ss.id WHERE ss.sector_root=?`, root[:]).Scan(&vol, &idx)
+	if errors.Is(err, sql.ErrNoRows) {
+		return 0, 0, false
+	} else if err != nil {
+		w.fatalf("locate: %v", err)
+	}
+	return vol, idx, true
 }
 
 func (w *c02World) snapshot() {
@@ -519,13 +617,10 @@ func (w *c02World) snapshot() {
 	}
 	for r := 1; r <= c02Pool; r++ {
 		rs = append(rs, fmt.Sprint(r))
-		loc, err := w.db.SectorLocation(c02RootsOf[r])
-		if err == nil {
-			locs = append(locs, fmt.Sprintf("Some (%d, %d)", loc.Volume, loc.Index))
-		} else if errors.Is(err, storage.ErrSectorNotFound) {
-			locs = append(locs, "None")
+		if vol, idx, ok := w.locate(r); ok {
+			locs = append(locs, fmt.Sprintf("Some (%d, %d)", vol, idx))
 		} else {
-			w.fatalf("location: %v", err)
+			locs = append(locs, "None")
 		}
 	}
 	v2, err := w.db.V2SectorRoots()
@@ -599,7 +694,7 @@ func (w *c02World) waitReady(id int64) {
 
 func (w *c02World) occupants(id int64) (roots []int) {
 	for r := 1; r <= c02Pool; r++ {
-		if loc, err := w.db.SectorLocation(c02RootsOf[r]); err == nil && loc.Volume == id {
+		if vol, _, ok := w.locate(r); ok && vol == id {
 			roots = append(roots, r)
 		}
 	}
@@ -620,7 +715,7 @@ func (w *c02World) removeVolume(id int64, force bool) {
 	// what was lost must be counted, and only a forced removal may lose anything
 	var gone []int
 	for _, r := range before {
-		if _, e := w.db.SectorLocation(c02RootsOf[r]); e != nil {
+		if _, _, ok := w.locate(r); !ok {
 			gone = append(gone, r)
 		}
 	}
@@ -719,18 +814,132 @@ func (w *c02World) finishWrite(h *c02Writer, fail bool) {
 	w.snapshot()
 }
 
-func (w *c02World) sync() {
-	if err := w.vm.Sync(); err != nil {
-		w.fatalf("sync: %v", err)
+// syncCall runs VolumeManager.Sync in the calling goroutine as model thread t: DSyncBegin, one
+// DFsync (+ DClear) per fsync issued (recorded by the volume file), DSyncEnd when it returns nil.
+func (w *c02World) syncCall() error {
+	w.mu.Lock()
+	w.nsync++
+	t := 1000 + w.nsync
+	g := c02Goid()
+	w.syncThreads[g] = t
+	w.mu.Unlock()
+	w.step(fmt.Sprintf("DSyncBegin %d", t), c02Res(nil))
+	err := w.vm.Sync()
+	w.mu.Lock()
+	delete(w.syncThreads, g)
+	w.mu.Unlock()
+	if err == nil && !w.st.dead {
+		w.step(fmt.Sprintf("DSyncEnd %d", t), c02Res(nil))
 	}
-	w.step("DSync", c02Res(nil))
-	w.count("op:Sync")
+	return err
+}
+
+func (w *c02World) markSynced() {
 	for r, a := range w.acked {
 		if a {
 			w.synced[r] = true
 		}
 	}
 	w.dirty = map[int]bool{}
+}
+
+func (w *c02World) sync() {
+	if err := w.syncCall(); err != nil {
+		w.fatalf("sync: %v", err)
+	}
+	w.count("op:Sync")
+	w.markSynced()
+}
+
+// syncFailing: the next fsync issued by Sync fails; Sync returns the error, nothing counts as synced.
+func (w *c02World) syncFailing() bool {
+	w.mu.Lock()
+	w.failSync = 1
+	w.mu.Unlock()
+	err := w.syncCall()
+	w.mu.Lock()
+	w.failSync = 0
+	w.mu.Unlock()
+	w.count(fmt.Sprintf("op:Sync:fsync-error=%v", err != nil))
+	if err == nil {
+		w.markSynced()
+	}
+	return err != nil
+}
+
+// retryAfterFailedSync is what a renter does after the RPC failed: upload again (the sectors are
+// stored, Write answers "exists"), then Sync again.
+func (w *c02World) retryAfterFailedSync() {
+	for r := 1; r <= c02Pool; r++ {
+		if w.acked[r] && !w.synced[r] {
+			w.write(r, false)
+		}
+	}
+	w.sync()
+}
+
+// stalledSyncs: one session's Sync is held inside its fsync while a second session calls Sync.
+// The second session goes on (commits its references) as soon as its Sync has returned nil; if
+// that happens while the first fsync is still in flight, the process then dies.
+func (w *c02World) stalledSyncs() {
+	st := &c02Stall{entered: make(chan struct{}), release: make(chan struct{})}
+	w.mu.Lock()
+	w.stall = st
+	w.mu.Unlock()
+	done1 := make(chan error, 1)
+	go func() { done1 <- w.syncCall() }()
+	select {
+	case <-st.entered:
+	case err := <-done1: // nothing to fsync
+		w.mu.Lock()
+		w.stall = nil
+		w.mu.Unlock()
+		if err == nil {
+			w.markSynced()
+		}
+		w.count("op:StalledSync:nothing-to-sync")
+		return
+	}
+	done2 := make(chan error, 1)
+	go func() { done2 <- w.syncCall() }()
+	select {
+	case err := <-done2:
+		w.count("op:StalledSync:second-returned-while-first-in-flight")
+		if err == nil {
+			w.markSynced()
+			var ok []int
+			for q := 1; q <= c02Pool; q++ {
+				if w.canRef(q) {
+					ok = append(ok, q)
+				}
+			}
+			if len(ok) > 0 {
+				w.addTemp(ok, 100)
+			}
+		}
+		w.stalledRelease, w.stalledDone = st.release, done1
+		w.crash(nil)
+		w.readAll()
+	case <-time.After(120 * time.Millisecond):
+		w.count("op:StalledSync:second-waited")
+		close(st.release)
+		e1, e2 := <-done1, <-done2
+		if e1 == nil && e2 == nil {
+			w.markSynced()
+		}
+	}
+}
+
+// age: more than a prune interval passes without any access (stored_sectors.last_access_timestamp
+// is moved two hours into the past over the second connection; PruneSectors is then called with
+// a cutoff one hour ago).  Sessions do not live that long.
+func (w *c02World) age() {
+	if _, err := w.raw.Exec(`UPDATE stored_sectors SET last_access_timestamp=last_access_timestamp-7200`); err != nil {
+		w.fatalf("age: %v", err)
+	}
+	w.step("DAge", c02Res(nil))
+	w.count("op:Age")
+	w.acked, w.ackExists, w.ackHeld, w.synced = map[int]bool{}, map[int]bool{}, map[int]bool{}, map[int]bool{}
 }
 
 // read = VolumeManager.ReadSector, with the readability monitor for acknowledged references.
@@ -863,20 +1072,18 @@ func (w *c02World) expireTemp(h uint64) {
 	w.count("op:ExpireTemp")
 }
 
+// prune = PruneSectors the way the volume manager calls it: with a cutoff one prune interval ago.
 func (w *c02World) prune() {
-	if err := w.st.PruneSectors(context.Background(), time.Now().Add(time.Hour)); err != nil {
+	if err := w.st.PruneSectors(context.Background(), time.Now().Add(-time.Hour)); err != nil {
 		w.fatalf("prune: %v", err)
 	}
 	w.count("op:Prune")
-	// a prune with a future cutoff also takes sectors a session wrote but has not referenced yet
-	// (the real cutoff, now - pruneInterval, protects them): such a session has to upload again
-	w.forgetUnlocated()
 	w.snapshot()
 }
 
 func (w *c02World) forgetUnlocated() {
 	for r := 1; r <= c02Pool; r++ {
-		if _, err := w.db.SectorLocation(c02RootsOf[r]); err != nil {
+		if _, _, ok := w.locate(r); !ok {
 			w.acked[r], w.synced[r] = false, false
 		}
 	}
@@ -887,6 +1094,46 @@ func (w *c02World) resizeCache(n int) {
 	w.res.cacheSize = n
 	w.step(fmt.Sprintf("DResizeCache %d", n), c02Res(nil))
 	w.count("op:ResizeCache")
+}
+
+// referenceSome commits temp-storage references for everything the discipline allows.
+func (w *c02World) referenceSome() {
+	var ok []int
+	for q := 1; q <= c02Pool; q++ {
+		if w.canRef(q) {
+			ok = append(ok, q)
+		}
+	}
+	if len(ok) > 0 {
+		w.addTemp(ok, 100)
+	}
+}
+
+// reuploadDuringPrune: a sector that lost its last reference long ago and is still on disk is
+// uploaded again; a prune pass runs between that Write and the commit of the new reference.
+func (w *c02World) reuploadDuringPrune() {
+	var cand []int
+	for r := 1; r <= c02Pool; r++ {
+		if _, _, ok := w.locate(r); !ok {
+			continue
+		}
+		if has, err := w.db.HasSector(c02RootsOf[r]); err == nil && !has {
+			cand = append(cand, r)
+		}
+	}
+	if len(cand) == 0 {
+		return
+	}
+	r := cand[w.rng.Intn(len(cand))]
+	w.age()
+	if w.write(r, false) != nil {
+		return
+	}
+	w.prune()
+	w.sync()
+	w.referenceSome()
+	w.read(r, false)
+	w.count("op:ReuploadDuringPrune")
 }
 
 // ---------------------------------------------------------------- cases
@@ -921,6 +1168,7 @@ func (w *c02World) directed(id int) bool {
 		w.addTemp([]int{2}, 100)
 		w.crash(nil)
 		w.readAll()
+		w.age()
 		w.prune()
 		w.write(1, false)
 		w.sync()
@@ -1038,13 +1286,51 @@ func (w *c02World) directed(id int) bool {
 		w.waitReady(a)
 		w.snapshot()
 		w.readAll()
+	case 8: // re-upload of a dereferenced, not yet pruned sector while a prune pass runs
+		w.res.desc = "directed: prune between a re-upload and its reference commit"
+		w.addVolume(4)
+		w.write(1, false)
+		w.write(2, false)
+		w.sync()
+		w.addTemp([]int{1, 2}, 10)
+		w.expireTemp(10) // both unreferenced, still on disk
+		w.age()          // ... for longer than a prune interval
+		w.write(1, false) // "exists": the access time is what protects it now
+		w.prune()         // takes 2, must spare 1
+		w.sync()
+		c := w.addContract()
+		w.revise(c, []int{1})
+		w.readAll()
+		w.crash(nil)
+		w.readAll()
+	case 9: // an fsync error, the renter retries the upload, the host syncs again and commits; power loss
+		w.res.desc = "directed: fsync error, retry, commit, crash"
+		w.addVolume(4)
+		w.write(1, false)
+		w.write(2, false)
+		if !w.syncFailing() {
+			w.fatalf("the injected fsync error did not surface")
+		}
+		w.retryAfterFailedSync()
+		w.referenceSome()
+		w.crash(nil)
+		w.readAll()
+	case 10: // a second session's Sync while the first one's fsync is in flight
+		w.res.desc = "directed: Sync concurrent with a stalled Sync"
+		w.addVolume(4)
+		w.write(1, false)
+		w.write(2, false)
+		w.stalledSyncs()
+		w.referenceSome()
+		w.crash(nil)
+		w.readAll()
 	default:
 		return false
 	}
 	return true
 }
 
-const c02Directed = 8
+const c02Directed = 11
 
 func (w *c02World) volumeIDs() (ids []int64) {
 	vols, err := w.db.Volumes()
@@ -1076,23 +1362,23 @@ func (w *c02World) generated() {
 	for i := 0; i < steps; i++ {
 		r := 1 + rng.Intn(c02Pool)
 		switch x := rng.Intn(100); {
-		case x < 20:
+		case x < 18:
 			w.write(r, rng.Intn(7) == 0)
-		case x < 26:
+		case x < 24:
 			if len(held) < 2 && !heldRoot(r) {
 				if h := w.startWrite(r); h != nil {
 					held = append(held, h)
 				}
 			}
-		case x < 35:
+		case x < 33:
 			if len(held) > 0 {
 				k := rng.Intn(len(held))
 				w.finishWrite(held[k], rng.Intn(3) == 0)
 				held = append(held[:k], held[k+1:]...)
 			}
-		case x < 47:
+		case x < 43:
 			w.sync()
-		case x < 65: // reference what may be referenced
+		case x < 59: // reference what may be referenced
 			var ok []int
 			for q := 1; q <= c02Pool; q++ {
 				if w.canRef(q) {
@@ -1121,18 +1407,21 @@ func (w *c02World) generated() {
 				}
 				w.revise(c, append(nr, ok...))
 			}
-		case x < 75:
+		case x < 67:
 			w.read(r, rng.Intn(12) == 0)
-		case x < 78:
+		case x < 70:
 			w.readAll()
-		case x < 82:
+		case x < 74:
 			if len(held) == 0 {
 				w.expireTemp(uint64(9 + rng.Intn(4)))
+				if rng.Intn(2) == 0 {
+					w.age()
+				}
 				w.prune()
 			}
-		case x < 85:
+		case x < 77:
 			w.resizeCache(rng.Intn(4))
-		case x < 89:
+		case x < 81:
 			if len(held) == 0 {
 				ids := w.volumeIDs()
 				if len(ids) > 0 {
@@ -1152,27 +1441,47 @@ func (w *c02World) generated() {
 					}
 				}
 			}
-		case x < 92:
+		case x < 84:
 			if ids := w.volumeIDs(); len(held) == 0 && len(ids) > 1 {
 				w.removeVolume(ids[rng.Intn(len(ids))], rng.Intn(4) == 0)
 			}
-		case x < 94:
+		case x < 86:
 			if len(held) == 0 {
 				w.removeSector(r)
 			}
-		case x < 96:
+		case x < 88:
 			if len(w.volumeIDs()) < 3 {
 				w.addVolume(uint64(2 + rng.Intn(3)))
 			}
-		case x < 98:
+		case x < 90:
 			w.crash(held)
 			held = nil
-		case x < 99:
+		case x < 91:
 			if len(held) == 0 {
 				w.restart()
 			}
+		case x < 93:
+			if len(held) == 0 {
+				w.age()
+			}
+		case x < 96: // an unreferenced sector that is still on disk is uploaded again while a prune pass runs
+			if len(held) == 0 {
+				w.reuploadDuringPrune()
+			}
+		case x < 98: // an fsync error, the renter retries, commits; sometimes the power goes right after
+			if w.syncFailing() {
+				w.retryAfterFailedSync()
+				w.referenceSome()
+				if rng.Intn(2) == 0 {
+					w.crash(held)
+					held = nil
+					w.readAll()
+				}
+			}
 		default:
-			w.sync()
+			if len(held) == 0 {
+				w.stalledSyncs()
+			}
 		}
 	}
 	for _, h := range held {
